@@ -188,6 +188,7 @@ func (this *Conn) NodeIds() []uint64 {
 func (this *Conn) AddNode(id uint64, address string) {
 	this.addressesMu.Lock()
 	defer this.addressesMu.Unlock()
+	verifYield("conn.addNode.addressesLocked")
 
 	if _, exists := this.addresses[id]; !exists {
 		this.addresses[id] = address
@@ -202,6 +203,7 @@ func (this *Conn) AddNode(id uint64, address string) {
 func (this *Conn) RemoveNode(id uint64) {
 	this.addressesMu.Lock()
 	defer this.addressesMu.Unlock()
+	verifYield("conn.removeNode.addressesLocked")
 	this.connsMu.Lock()
 	defer this.connsMu.Unlock()
 
@@ -238,6 +240,7 @@ func (this *Conn) Dial(id uint64) (*grpc.ClientConn, error) {
 
 	this.connsMu.Lock()
 	defer this.connsMu.Unlock()
+	verifYield("conn.dial.connsLocked")
 	if existingConn, exists := this.conns[id]; exists {
 		conn.Close()
 		return existingConn, nil
